@@ -61,6 +61,7 @@ structure TConn where
   inbound : Bool
   bound : Option Key      -- the data connection it is piped to, once ConnectionBind succeeded
   deadline : Time         -- bind deadline (meaningful while unbound)
+  pend : Bytes            -- bytes the peer sent before the connection was bound (buffered by TCP)
 deriving DecidableEq, Repr
 
 structure Alloc where
@@ -453,7 +454,7 @@ def hConnect (c : Cfg) (s : State) (k : Key) (tid : Nat) (cr : Cred) (peer : Att
         else if !dialOK then { outs := [errResp k M 447 tid] }
         else if cidUsed s k.lid cid then {}      -- id collision: connection closed again, no response
         else
-          { upd := .set { a with conns := ⟨cid, p, false, none, s.now + c.bindT⟩ :: a.conns },
+          { upd := .set { a with conns := ⟨cid, p, false, none, s.now + c.bindT, []⟩ :: a.conns },
             outs := [.dial a.relay p cid, okResp k M tid { cid := some cid }] }
       | _ => { outs := [errResp k M 400 tid] }
   | r => { outs := authFail k M tid r }
@@ -463,7 +464,12 @@ def connOwner (s : State) (lid : Nat) (cid : Nat) : Option Alloc :=
   s.allocs.find? (fun a => a.key.lid == lid && a.conns.any (fun t => t.id == cid))
 
 def markBound (a : Alloc) (cid : Nat) (dk : Key) : Alloc :=
-  { a with conns := a.conns.map (fun t => if t.id == cid then { t with bound := some dk } else t) }
+  { a with conns := a.conns.map (fun t => if t.id == cid then { t with bound := some dk, pend := [] } else t) }
+
+def pendOf (a : Alloc) (cid : Nat) : Bytes :=
+  match a.conns.find? (fun t => t.id == cid) with
+  | some t => t.pend
+  | none => []
 
 /-- ConnectionBind arrives on a *new* connection `k`; on success it changes the allocation that owns
     the connection id (returned separately: this is the one handler that acts across 5-tuples, and
@@ -480,7 +486,8 @@ def hConnBind (c : Cfg) (s : State) (k : Key) (tid : Nat) (cr : Cred) (cid : Att
         | some a =>
           if a.user != user then ([errResp k M 400 tid], none)
           else if a.conns.any (fun t => t.id == id && t.bound.isSome) then ([errResp k M 400 tid], none)
-          else ([okResp k M tid { cid := some id }], some (markBound a id k))
+          else (okResp k M tid { cid := some id } ::
+                  (if (pendOf a id).isEmpty then [] else [.pipeToClient k (pendOf a id)]), some (markBound a id k))
     | _ => ([errResp k M 400 tid], none)
   | r => (authFail k M tid r, none)
 
@@ -578,7 +585,7 @@ def step (c : Cfg) (s : State) : Op → State × List Out
     | some a =>
       if !hasPerm a frm.ip then (s, [.connClosed a.key.lid cid frm])
       else if cidUsed s a.key.lid cid || dupeConn a frm then (s, [.connClosed a.key.lid cid frm])
-      else (replaceAlloc s { a with conns := ⟨cid, frm, true, none, s.now + c.bindT⟩ :: a.conns },
+      else (replaceAlloc s { a with conns := ⟨cid, frm, true, none, s.now + c.bindT, []⟩ :: a.conns },
             [.connAttempt a.key frm cid])
   | .ctrlClose k =>
     match findAlloc s k with
@@ -597,7 +604,8 @@ def step (c : Cfg) (s : State) : Op → State × List Out
     | some a => match findConn a cid with
                 | some t => match t.bound with
                             | some dk => (s, [.pipeToClient dk data])
-                            | none => (s, [])
+                            | none => (replaceAlloc s { a with conns := a.conns.map (fun u =>
+                                        if u.id == cid then { u with pend := u.pend ++ data } else u) }, [])
                 | none => (s, [])
     | none => (s, [])
   | .pipeCloseC k =>
@@ -607,8 +615,9 @@ def step (c : Cfg) (s : State) : Op → State × List Out
   | .pipeCloseP lid cid =>
     match connOwner s lid cid with
     | some a => match findConn a cid with
-                | some t => (replaceAlloc s (dropConn a cid),
-                             match t.bound with | some dk => [.dataClosed dk] | none => [])
+                | some t => match t.bound with
+                            | some dk => (replaceAlloc s (dropConn a cid), [.dataClosed dk])
+                            | none => (s, [])    -- nobody reads an unbound connection: it stays until its deadline
                 | none => (s, [])
     | none => (s, [])
   | .close =>
